@@ -1,2 +1,119 @@
-(* C23 — placeholder while the model is brought into correspondence. *)
-From AG Require Import Http.
+(* C23 — all HTTP request encodings decode to the same request; batches keep
+   order; malformed encodings are rejected.  Only property theorems here. *)
+From AG Require Import Http HttpProofs.
+Open Scope N_scope.
+
+(* the key tables regenerated from the serde attributes are known ones *)
+Theorem C23_tables_known :
+  tab_ok req_tab = true /\ tab_std req_tab /\ tab_ok3 get_tab = true /\
+  (get_tab = get_tab_today \/ tab_ok get_tab = true).
+Proof. exact (conj req_tab_ok (conj req_tab_std (conj get_tab_ok3 get_tab_known))). Qed.
+
+Section Codecs.
+  (* serde_json on bodies, serde_json on query-string members: a client's text parses back to its tree *)
+  Variable bytes : Type.
+  Variable jprint_b : jv -> bytes.
+  Variable jparse_b : bytes -> option jv.
+  Hypothesis body_codec : forall v, jparse_b (jprint_b v) = Some v.
+  Variable jprint : jv -> str.
+  Variable jparse : str -> option jv.
+  Hypothesis member_codec : forall v, jparse (jprint v) = Some v.
+
+  (* JSON body (receive_batch_json / receive_json / content-type dispatch) and
+     multipart operations part: every well-formed request decodes to itself *)
+  Theorem C23_json_and_multipart_same_request : forall kt r,
+    tab_ok kt = true -> wf_request r ->
+    decode_body kt (jparse_b (jprint_b (enc_json r))) = Ok (BSingle r) /\
+    into_single (decode_body kt (jparse_b (jprint_b (enc_json r)))) = Ok r /\
+    decode_mp_operations kt CtOther (jparse_b (jprint_b (enc_json r))) = Ok (BSingle r) /\
+    dispatch kt CtOther (jparse_b (jprint_b (enc_json r))) (Err E_INVALID_MULTIPART) = Ok (BSingle r).
+  Proof. exact (json_body_roundtrip bytes jprint_b jparse_b body_codec). Qed.
+
+  (* a JSON batch decodes to its requests, in the original order *)
+  Theorem C23_batch_same_requests_in_order : forall kt rs,
+    tab_ok kt = true -> Forall wf_request rs -> rs <> [] ->
+    decode_body kt (jparse_b (jprint_b (JArr (map enc_json rs)))) = Ok (BBatch rs).
+  Proof. exact (json_batch_body_roundtrip bytes jprint_b jparse_b body_codec). Qed.
+
+  (* GET: same request, for every table that routes operationName ... *)
+  Theorem C23_get_same_request : forall kt r,
+    tab_ok kt = true -> wf_request r -> decode_get kt jparse (enc_get jprint r) = Ok r.
+  Proof. exact (get_roundtrip jprint jparse member_codec). Qed.
+
+  (* ... and for today's table whenever no operation name is sent (outside the known class) *)
+  Theorem C23_get_same_request_without_opname : forall kt r,
+    tab_ok3 kt = true -> r_op r = None -> wf_request r -> decode_get kt jparse (enc_get jprint r) = Ok r.
+  Proof. exact (get_roundtrip_no_opname jprint jparse member_codec). Qed.
+
+  (* known finding: today's table reads operation_name; the protocol's operationName is dropped *)
+  Theorem C23_get_opname_refuted :
+    exists r, wf_request r /\ decode_get get_tab_today jparse (enc_get jprint r) <> Ok r.
+  Proof. exact (get_refuted_today jprint jparse member_codec). Qed.
+
+  Theorem C23_get_same_request_iff_opname_routed : forall kt,
+    tab_ok3 kt = true -> (routes kt K_OPNAME = 1 \/ routes kt K_OPNAME = 4) ->
+    ((forall r, wf_request r -> decode_get kt jparse (enc_get jprint r) = Ok r) <-> routes kt K_OPNAME = 1).
+  Proof. exact (get_iff jprint jparse member_codec). Qed.
+
+  (* text that is not JSON is a request error *)
+  Theorem C23_not_json_rejected : forall kt b,
+    jparse_b b = None -> decode_body kt (jparse_b b) = Err E_INVALID_REQUEST.
+  Proof. exact (json_body_not_json bytes jparse_b). Qed.
+End Codecs.
+
+(* malformed encodings: outside the positional-array class the decoder accepts
+   exactly what the protocol calls a request / a non-empty batch, decodes it to
+   exactly those requests in order, and answers a request error otherwise *)
+Theorem C23_json_accepts_exactly_wellformed : forall kt v,
+  tab_std kt -> json_known kt v = 0 ->
+  decode_batch kt v = match spec_batch v with Some b => Ok b | None => Err E_INVALID_REQUEST end.
+Proof. exact json_decode_is_spec. Qed.
+
+(* known finding: an array where a request object is expected is accepted positionally *)
+Theorem C23_positional_array_refuted :
+  spec_batch (JArr []) = None /\
+  decode_batch req_tab (JArr []) = Ok (BSingle {| r_query := []; r_op := None; r_vars := []; r_exts := [] |}) /\
+  json_known req_tab (JArr []) = 2.
+Proof. exact positional_refuted. Qed.
+
+(* known finding: an operations part typed multipart/* is neither decoded nor rejected *)
+Theorem C23_operations_part_panic_refuted : forall kt t,
+  decode_mp_operations kt (CtMultipart true) t = Panic.
+Proof. exact mp_panic_refuted. Qed.
+
+(* batch responses: for every completion schedule, once all executions have
+   completed the responses are the executions of the requests in request order;
+   and every schedule that names every request completes *)
+Theorem C23_batch_order : forall (A B : Type) (exec : A -> B) rs sched out,
+  batch_response exec rs sched = Some out -> out = map exec rs.
+Proof. exact batch_order_all_schedules. Qed.
+
+Theorem C23_batch_completes : forall (A B : Type) (exec : A -> B) rs sched,
+  (forall i, (i < length rs)%nat -> In i sched) -> batch_response exec rs sched = Some (map exec rs).
+Proof. exact batch_completes. Qed.
+
+Theorem C23_nonvacuous : wf_request sample_request /\ r_op sample_request = Some [81].
+Proof. exact (conj sample_wf eq_refl). Qed.
+
+Check C23_get_same_request : forall jprint jparse, (forall v, jparse (jprint v) = Some v) ->
+  forall kt r, tab_ok kt = true -> wf_request r -> decode_get kt jparse (enc_get jprint r) = Ok r.
+Check C23_batch_order : forall (A B : Type) (exec : A -> B) rs sched out,
+  batch_response exec rs sched = Some out -> out = map exec rs.
+Check C23_json_accepts_exactly_wellformed : forall kt v,
+  tab_std kt -> json_known kt v = 0 ->
+  decode_batch kt v = match spec_batch v with Some b => Ok b | None => Err E_INVALID_REQUEST end.
+
+Print Assumptions C23_tables_known.
+Print Assumptions C23_json_and_multipart_same_request.
+Print Assumptions C23_batch_same_requests_in_order.
+Print Assumptions C23_get_same_request.
+Print Assumptions C23_get_same_request_without_opname.
+Print Assumptions C23_get_opname_refuted.
+Print Assumptions C23_get_same_request_iff_opname_routed.
+Print Assumptions C23_not_json_rejected.
+Print Assumptions C23_json_accepts_exactly_wellformed.
+Print Assumptions C23_positional_array_refuted.
+Print Assumptions C23_operations_part_panic_refuted.
+Print Assumptions C23_batch_order.
+Print Assumptions C23_batch_completes.
+Print Assumptions C23_nonvacuous.
